@@ -24,7 +24,10 @@
   * `renumber_versions`              — the invariant behind the version records: after updateVersion the logs of one
                                        (account, type) carry base+1, base+2, … in list order (hence no two published
                                        non-root logs share (address, type, version)).
-  * `root_version_not_recorded`      — as coded: a root log takes the provisional counter and updateVersion never sees it.
+  * `published_versions_consecutive` — the same for the list Finalise leaves behind, every account of the cache.
+  * `finaliseParts_roots`            — as coded: the root logs stand behind the merged logs, in sorted account order, with the
+                                       version of the PROVISIONAL counter; updateVersion never renumbers or records them
+                                       (two blocks changing one account's storage both publish StorageRootLog version 1).
 -/
 import LemoModel.MergeOrder
 namespace LemoProofs.C01Order
@@ -285,31 +288,49 @@ structure SimS (s s' : JS) : Prop where
   com : s.com = s'.com
   base : s.base = s'.base
   next : s.next = s'.next
+  rz : s.rootZero = s'.rootZero
   logs : Sim s.logs s'.logs
 
-theorem SimS.refl (s : JS) : SimS s s := ⟨rfl, rfl, rfl, rfl, Sim.refl _⟩
-theorem SimS.symm {s s' : JS} (h : SimS s s') : SimS s' s := ⟨h.cell.symm, h.com.symm, h.base.symm, h.next.symm, h.logs.symm⟩
+theorem SimS.refl (s : JS) : SimS s s := ⟨rfl, rfl, rfl, rfl, rfl, Sim.refl _⟩
+theorem SimS.symm {s s' : JS} (h : SimS s s') : SimS s' s :=
+  ⟨h.cell.symm, h.com.symm, h.base.symm, h.next.symm, h.rz.symm, h.logs.symm⟩
 theorem SimS.trans {s s' s'' : JS} (h : SimS s s') (h' : SimS s' s'') : SimS s s'' :=
-  ⟨h.cell.trans h'.cell, h.com.trans h'.com, h.base.trans h'.base, h.next.trans h'.next, h.logs.trans h'.logs⟩
+  ⟨h.cell.trans h'.cell, h.com.trans h'.com, h.base.trans h'.base, h.next.trans h'.next, h.rz.trans h'.rz, h.logs.trans h'.logs⟩
 
 theorem contentChanged_iff (s : JS) (a t : Nat) :
-    contentChanged s a t = true ↔ ∃ e, touched s.logs a t e ∧ s.cell a t e ≠ s.com a t e := by
+    contentChanged s a t = true ↔
+      if s.rootZero a t = true then ∃ e, touched s.logs a t e
+      else ∃ e, touched s.logs a t e ∧ s.cell a t e ≠ s.com a t e := by
   unfold contentChanged touched
-  rw [List.any_eq_true]
-  constructor
-  · rintro ⟨l, hl, h⟩
-    simp only [Bool.and_eq_true, beq_iff_eq, bne_iff_ne, ne_eq] at h
-    exact ⟨l.extra, ⟨l, hl, h.1.1, h.1.2, rfl⟩, h.2⟩
-  · rintro ⟨e, ⟨l, hl, h1, h2, h3⟩, h4⟩
-    refine ⟨l, hl, ?_⟩
-    simp only [Bool.and_eq_true, beq_iff_eq, bne_iff_ne, ne_eq]
-    exact ⟨⟨h1, h2⟩, by rw [h3]; exact h4⟩
+  split
+  · rw [List.any_eq_true]
+    constructor
+    · rintro ⟨l, hl, h⟩
+      simp only [Bool.and_eq_true, beq_iff_eq] at h
+      exact ⟨l.extra, l, hl, h.1, h.2, rfl⟩
+    · rintro ⟨e, l, hl, h1, h2, _⟩
+      refine ⟨l, hl, ?_⟩
+      simp only [Bool.and_eq_true, beq_iff_eq]
+      exact ⟨h1, h2⟩
+  · rw [List.any_eq_true]
+    constructor
+    · rintro ⟨l, hl, h⟩
+      simp only [Bool.and_eq_true, beq_iff_eq, bne_iff_ne, ne_eq] at h
+      exact ⟨l.extra, ⟨l, hl, h.1.1, h.1.2, rfl⟩, h.2⟩
+    · rintro ⟨e, ⟨l, hl, h1, h2, h3⟩, h4⟩
+      refine ⟨l, hl, ?_⟩
+      simp only [Bool.and_eq_true, beq_iff_eq, bne_iff_ne, ne_eq]
+      exact ⟨⟨h1, h2⟩, by rw [h3]; exact h4⟩
 
 theorem contentChanged_sim {s s' : JS} (h : SimS s s') (a t : Nat) : contentChanged s a t = contentChanged s' a t := by
-  rw [Bool.eq_iff_iff, contentChanged_iff, contentChanged_iff, h.cell, h.com]
-  constructor
-  · rintro ⟨e, ht, hc⟩; exact ⟨e, (h.logs.keys a t e).mp ht, hc⟩
-  · rintro ⟨e, ht, hc⟩; exact ⟨e, (h.logs.keys a t e).mpr ht, hc⟩
+  rw [Bool.eq_iff_iff, contentChanged_iff, contentChanged_iff, h.cell, h.com, h.rz]
+  split
+  · constructor
+    · rintro ⟨e, ht⟩; exact ⟨e, (h.logs.keys a t e).mp ht⟩
+    · rintro ⟨e, ht⟩; exact ⟨e, (h.logs.keys a t e).mpr ht⟩
+  · constructor
+    · rintro ⟨e, ht, hc⟩; exact ⟨e, (h.logs.keys a t e).mp ht, hc⟩
+    · rintro ⟨e, ht, hc⟩; exact ⟨e, (h.logs.keys a t e).mpr ht, hc⟩
 
 theorem finStep_sim {s s' : JS} (h : SimS s s') : finStep s = finStep s' := by
   funext acc a
@@ -388,12 +409,13 @@ theorem Sim_of_groups {j j' : List Log} (h : ∀ a, group a j = group a j') : Si
     account, the accounts touched in any relative order) publish the same list. -/
 theorem publish_interleaving_irrelevant {srt srt' : List Nat → List Nat} (hs : IsSort srt) (hs' : IsSort srt') (s s' : JS)
     (hc : s.cell = s'.cell) (hm : s.com = s'.com) (hb : s.base = s'.base) (hx : s.next = s'.next)
+    (hz : s.rootZero = s'.rootZero)
     (hg : ∀ a, group a s.logs = group a s'.logs)
     {π1 π2 π3 π1' π2' π3' : List Nat}
     (h1 : IsKeyOrder π1 s.logs) (h2 : IsKeyOrder π2 s.logs) (h3 : IsCacheOrder π3 s.logs)
     (h1' : IsKeyOrder π1' s'.logs) (h2' : IsKeyOrder π2' s'.logs) (h3' : IsCacheOrder π3' s'.logs) :
     publish srt π1 π2 π3 s = publish srt' π1' π2' π3' s' :=
-  publish_sim hs hs' ⟨hc, hm, hb, hx, Sim_of_groups hg⟩ h1 h2 h3 h1' h2' h3'
+  publish_sim hs hs' ⟨hc, hm, hb, hx, hz, Sim_of_groups hg⟩ h1 h2 h3 h1' h2' h3'
 
 /-! ### setters on indistinguishable states -/
 
@@ -408,7 +430,7 @@ theorem write_logs (s : JS) (a t e : Nat) (v : Int) :
 
 /-- the same setter call on two indistinguishable states -/
 theorem SimS.write {s s' : JS} (h : SimS s s') (a t e : Nat) (v : Int) : SimS (s.write a t e v) (s'.write a t e v) := by
-  refine ⟨?_, h.com, h.base, ?_, ?_⟩
+  refine ⟨?_, h.com, h.base, ?_, h.rz, ?_⟩
   · show upd3 s.cell a t e v = upd3 s'.cell a t e v
     rw [h.cell]
   · show upd2 s.next a t (s.next a t + 1) = upd2 s'.next a t (s'.next a t + 1)
@@ -420,7 +442,7 @@ theorem SimS.write {s s' : JS} (h : SimS s s') (a t e : Nat) (v : Int) : SimS (s
 theorem write_comm (s : JS) (a t e : Nat) (v : Int) (b t' e' : Nat) (v' : Int) (hab : a ≠ b) :
     SimS ((s.write a t e v).write b t' e' v') ((s.write b t' e' v').write a t e v) := by
   have hba : b ≠ a := fun h => hab h.symm
-  refine ⟨?_, rfl, rfl, ?_, ?_⟩
+  refine ⟨?_, rfl, rfl, ?_, rfl, ?_⟩
   · funext x y z
     simp only [write_cell]
     by_cases h1 : x = a <;> by_cases h2 : x = b <;> simp_all
@@ -501,7 +523,7 @@ theorem mergeStep_chain (V : List Log) (l1 l2 : Log) (hm : needMerge l1.ty = tru
 /-- two consecutive setter calls on one merged cell: the intermediate value does not matter -/
 theorem write_chain (s : JS) (a t e : Nat) (v1 v1' v2 : Int) (hm : needMerge t = true) :
     SimS ((s.write a t e v1).write a t e v2) ((s.write a t e v1').write a t e v2) := by
-  refine ⟨?_, rfl, rfl, ?_, ?_⟩
+  refine ⟨?_, rfl, rfl, ?_, rfl, ?_⟩
   · funext x y z
     simp only [write_cell]
     split <;> rfl
@@ -1148,5 +1170,13 @@ example : publish sortNat (keysOf exA.logs) (keysOf exA.logs) (keysOf exA.logs) 
     (voteChanges_isChangeOrder _ _) (voteChanges_reverse_isChangeOrder _ _)
     (keysOf_isKeyOrder _) (keysOf_isKeyOrder _) (keysOf_isCacheOrder _)
     (keysOf_isKeyOrder _) (keysOf_isKeyOrder _) (keysOf_isCacheOrder _)
+
+/-- as coded: a setter call that changes nothing (equity nil over nothing: its log is dropped by removeUnchanged) still
+    makes the entry dirty; `StorageCache.Update` then opens an empty trie over the ZERO root and returns the EMPTY-TRIE
+    hash ≠ zero hash: an EquityRootLog is published for an account whose equity trie has no content (observed on the real
+    code by the `mo-publish` lines; deterministic, not an order dependence). -/
+example :
+    let b := ((({} : JS).write 4 1 0 7).write 4 10 1 0)
+    finalise isort [4] b (mergeChangeLogs isort [4] [4] b.logs) = [⟨4, 1, 0, 0, 7, 1⟩, ⟨4, 11, 0, 0, 0, 1⟩] := by decide
 
 end LemoProofs.C01Order
